@@ -26,7 +26,10 @@ for spec in ${DET_ENGINES:-cachesim: cachesim:-family=enum irsim: runsim: histsi
   for i in $(seq 1 $p); do
     gmp=$(( (i % 3 == 0) ? 1 : ( (i % 3 == 1) ? 4 : 16 ) ))
     rg=$(( i % 2 ))
-    ( GOMAXPROCS=$gmp VERIF_WORKER_PROCS=keep VERIF_RACE_GATES=$rg "$SCR/$e" $extra -worker -wid 0 -workers 1 -runs $n -budget 1h -seed 7 -scratch "$SCR/tmp" -dump-digests "$SCR/out/$tag.$i" >/dev/null 2>"$SCR/out/$tag.$i.err" ) &
+    # every fourth process executes only every second case: a different
+    # process history (what ran before in the same OS process must not matter)
+    stride=1; [ $(( i % 4 )) -eq 2 ] && stride=2
+    ( GOMAXPROCS=$gmp VERIF_WORKER_PROCS=keep VERIF_RACE_GATES=$rg "$SCR/$e" $extra -worker -wid 0 -workers $stride -runs $n -budget 1h -seed 7 -scratch "$SCR/tmp" -dump-digests "$SCR/out/$tag.$i" >/dev/null 2>"$SCR/out/$tag.$i.err" ) &
     pids+=($!)
     # at most 8 at a time
     if [ $(( i % 8 )) -eq 0 ]; then wait; fi
@@ -36,6 +39,11 @@ for spec in ${DET_ENGINES:-cachesim: cachesim:-family=enum irsim: runsim: histsi
   lines=$(wc -l < "$ref")
   bad=0
   for i in $(seq 2 $p); do
+    if [ $(( i % 4 )) -eq 2 ]; then
+      # compare the common indices only
+      awk 'NR==FNR{a[$1]=$0;next} ($1 in a) && a[$1]!=$0{print "history-dependent: " a[$1] " vs " $0; bad=1} END{exit bad}' "$ref" "$SCR/out/$tag.$i" || { bad=$((bad+1)); }
+      continue
+    fi
     if ! cmp -s "$ref" "$SCR/out/$tag.$i"; then bad=$((bad+1)); diff "$ref" "$SCR/out/$tag.$i" | head -5; echo "--- stderr of process $i:"; tail -5 "$SCR/out/$tag.$i.err"; fi
   done
   echo "determinism $tag: $lines cases x $p processes (GOMAXPROCS 1/4/16, both gate kinds): $bad differing" | tee -a "${DET_SUMMARY:-/dev/null}"
